@@ -514,6 +514,18 @@ Definition accepts (id : N) (t : gty) : bool :=
       else (64 <=? w)
   end.
 
+(* float64(float32): IEEE widening of the bit pattern (signalling NaNs come out quiet, as the
+   hardware conversion does) *)
+Definition widen32 (b : N) : N :=
+  let s := b / 2^31 in
+  let e := (b / 2^23) mod 256 in
+  let m := b mod 2^23 in
+  if e =? 255 then s * 2^63 + 2047 * 2^52 + (if m =? 0 then 0 else N.lor m (2^22) * 2^29)
+  else if e =? 0 then
+    if m =? 0 then s * 2^63
+    else let k := N.log2 m in s * 2^63 + (k + 874) * 2^52 + (m - 2^k) * 2^(52 - k)
+  else s * 2^63 + (e + 896) * 2^52 + m * 2^29.
+
 Fixpoint dty (fuel : nat) (dep : N) (t : gty) (id : N) : dec tval :=
   match fuel with
   | O => NoFuel
@@ -544,7 +556,7 @@ Fixpoint dty (fuel : nat) (dep : N) (t : gty) (id : N) : dec tval :=
         else Fail eType
       else if id =? idFloat then
         v <- rd_i32 ;;
-        match t with GF32 => Ret (XF32 (u32 v)) | _ => Fail eType end   (* float64 target: widening, not modelled *)
+        match t with GF32 => Ret (XF32 (u32 v)) | GF64 => Ret (XF64 (widen32 (u32 v))) | _ => Fail eType end   (* float64 target: float64(value) *)
       else if id =? idDouble then
         v <- rd_i64 ;;
         match t with GF64 => Ret (XF64 (u64 v)) | _ => Fail eType end
